@@ -320,6 +320,9 @@ Definition do_writecas (ctx : kctx) (exp cas : N) (v : option string) (o : wopts
     (* WriteCas is the one call that hands the expected CAS to SQLite as a statement parameter, and database/sql
        refuses a uint64 with the high bit set: the statement is not run, the call fails with the driver's error
        (after the two checks made in Go: no row at all, nothing to append to) *)
+    (* AddOnly holds with the append option too: a key that has a value is refused (fix of /repo: before it the
+       append went ahead wherever the expected CAS matched) *)
+    if w_append o && w_addonly o && is_some r && negb was_tomb then kfail 1 EKeyExists r else
     if (9223372036854775808 <=? cas) && negb (w_append o && was_tomb) then kfail 1 EOther r else
     if w_append o then
       match r, v with
